@@ -41,7 +41,14 @@ def installed_comparator(m, installer_name):
 
 def ord_rule(rep, rule, m, func, spec, total_on, what):
     """Run ORD on one comparator and file findings."""
-    res = ORD.check(func, spec=spec, total_on=total_on)
+    try:
+        res = ORD.check(func, spec=spec, total_on=total_on)
+    except ORD.Unordered as e:
+        rule.instance("%s (%s): decides by arithmetic on the keys" % (func.key, m.rel(func.file)))
+        rule.fail()
+        rep.finding(rule, func.name, "order:arithmetic", "%s is not %s for all key values: %s" % (func.name, what, e),
+                    where="%s:%s" % (m.rel(func.file), func.line))
+        return {"fields": [], "obligations": 1, "failures": [("arithmetic", str(e))], "samples": []}
     rule.instance("%s (%s) fields=%s" % (func.key, m.rel(func.file), ",".join(res["fields"])))
     nfail = len(res["failures"])
     rule.obligations += res["obligations"]
